@@ -70,3 +70,46 @@ def thresholds(cap=CAP):
 def small_thresholds(limit=1 << 12):
     """per-axis candidates (a 'long axis' fast path): constants of the census in 2**10 .. limit"""
     return sorted(v for v in constants() if v <= limit)
+
+
+def ordering_comparisons():
+    """[(file:line, source text, [constants])] for every ordering comparison (<, <=, >, >=) in the library's source that involves
+    a numeric constant >= 5 (a size / count threshold: "more than 16 channels", "r > 8 * m") or a tiny positive float (< 1e-3: an
+    absolute "numerically zero" test).  Empty on the pinned tree (its comparisons with constants are all ==)."""
+    out = []
+    root = os.path.join(REPO, "pytorch_wavelets")
+    for d, _, files in os.walk(root):
+        for f in sorted(files):
+            if not f.endswith(".py") or f == "_verif.py":
+                continue
+            p = os.path.join(d, f)
+            try:
+                src = open(p).read()
+                tree = ast.parse(src)
+            except Exception:   # noqa
+                continue
+            for node in ast.walk(tree):
+                if isinstance(node, ast.Compare) and any(isinstance(o, (ast.Lt, ast.LtE, ast.Gt, ast.GtE)) for o in node.ops):
+                    cs = []
+                    for sub in ast.walk(node):
+                        if isinstance(sub, ast.Constant) and isinstance(sub.value, (int, float)) and not isinstance(sub.value, bool):
+                            v = sub.value
+                            if abs(v) >= 5 or (isinstance(v, float) and 0 < abs(v) < 1e-3):
+                                cs.append(v)
+                    if cs:
+                        out.append(("%s:%d" % (os.path.relpath(p, REPO), node.lineno), (ast.get_source_segment(src, node) or "")[:120], cs))
+    return out
+
+
+def small_counts(limit=64):
+    """integer constants 5 .. limit used in ordering comparisons: candidates for 'more than K channels / items / filter lengths'"""
+    return sorted({int(c) for _, _, cs in ordering_comparisons() for c in cs if isinstance(c, int) and 5 <= c <= limit})
+
+
+def report(rep):
+    """what the census found, into the evidence (diagnostic: a threshold the drivers should exceed)"""
+    consts = constants()
+    comps = ordering_comparisons()
+    rep.extra["census"] = {"size_constants": {str(k): v[:3] for k, v in sorted(consts.items())}, "ordering_comparisons": [list(c) for c in comps[:20]],
+                           "thresholds_exceeded_by_the_drivers": thresholds()}
+    return consts, comps
